@@ -117,7 +117,12 @@ EXPORT errno_t _wcsnset_s_chk(wchar_t *restrict dest, rsize_t dmax, wchar_t valu
 #ifdef SAFECLIB_STR_NULL_SLACK
     /* null slack to clear any data */
     dmax -= (rsize_t)(dest - orig_dest);
-    if (dmax && !*dest)
+    /* skip the rest of a string longer than n */
+    while (dmax && *dest) {
+        dmax--;
+        dest++;
+    }
+    if (dmax)
         memset(dest, 0, dmax * sizeof(wchar_t));
 #endif
 
